@@ -14,6 +14,8 @@ Decided:
     with k = the index q was constructed with, before the entry point returns or polls q for completion.
  N4 wait loops: no completion poll (can_pop/peek_used) on q while a submission on q is still un-notified.
  N5 every queue a driver can suppress interrupts on can be re-enabled (enable/disable siblings cover the same queues).
+ N7 completion test wrap-safe: free-running indices only through wrapping arithmetic / equality (C03.E5) and can_pop folded
+    over index pairs across the wrap (C03.E9).  N8 a blocking helper pops the token of its own add (C03.E8).
  N6 each queue is constructed with event_idx = contains(negotiated, EVENT_IDX) (C08.H3, bit 29).
 Not decided: device-side liveness.
 """
@@ -110,6 +112,15 @@ def run(F, R):
     # N6: each queue runs in the suppression mode that was negotiated: the event-index argument of every queue
     # construction is contains(negotiated features, EVENT_IDX) - with the wrong mode should_notify reads a field the
     # device never writes (shared with C08.H3)
+    # N7/N8: blocking helpers return as soon as the device has served the request: the completion test is wrap-safe
+    # (C03.E5 counters, C03.E9 truth table) and the helper waits for / pops its own token (C03.E8)
+    from . import C03 as _c3
+    _c3.counters_rule(F, R, 'N7')
+    if 'can_pop' in byrole:
+        _lf = _c3.last_used_field(F, M, byrole['can_pop'][0])
+        if _lf:
+            _c3.e9_can_pop(F, R, M, byrole['can_pop'][0], _lf, rule='N7')
+    _c3.e8_helper_token(F, R, M, roles, rule='N8')
     from . import C08 as _c8
     _qctor = [b['id'] for b in queue_entry_points(F, M) if b.get('sig', '').find('-> core::result::Result<%s<' % M.queue_adt) >= 0]
     _c8.h1_constructors(F, RuleProxy(R, {'H3': 'N6'}, only=lambda inst: inst.endswith('arg-29')), M, _qctor)
